@@ -145,6 +145,20 @@ class Ctx:
                 if f["id"] not in self.known_examples:
                     self.known_examples[f["id"]] = {"case": case, "violations": found[:3]}
                 return
+        # several recorded mechanisms may coincide in one case (a long history): all of them neutralised together
+        usable = [f for f in self.kf if f.get("neutralise") in hooks.NEUTRALISERS]
+        if len(usable) >= 2:
+            import contextlib
+            with contextlib.ExitStack() as stack:
+                for f in usable:
+                    stack.enter_context(hooks.neutralise(f["neutralise"]))
+                again = self._rerun_quiet(case)
+            if not again:
+                for f in usable:
+                    self.known_hits[f["id"]] += 1
+                    self.known_examples.setdefault(f["id"], {"case": case, "violations": found[:3]})
+                self.counts["cases_attributed_to_several_known_findings_together"] += 1
+                return
         self._file_violation(case, found)
 
     def _file_violation(self, case, found):
